@@ -746,12 +746,14 @@ pub fn kmer_ord_law_usize<C: Oracle + Ord, const K: usize, S: Src>(s: &mut S) {
     chk!(s, "min/max of k-mers follow the integer", usize::from(&core::cmp::min(ka, kb)) == core::cmp::min(a, b) && usize::from(&core::cmp::max(ka, kb)) == core::cmp::max(a, b));
     cov!(s, "kmer ord law reachable", true);
 }
+#[cfg(not(no_wide_ord))]
 pub fn kmer_ord_law_u64<C: Oracle + Ord, const K: usize, S: Src>(s: &mut S) {
     let (a, b) = (s.u64(), s.u64());
     let (ka, kb): (Kmer<C, K, u64>, Kmer<C, K, u64>) = (Kmer::from(a), Kmer::from(b));
     chk!(s, "u64 k-mer order is the numeric order of the packed integer", ka.cmp(&kb) == a.cmp(&b) && (ka == kb) == (a == b));
     cov!(s, "kmer ord u64 reachable", true);
 }
+#[cfg(not(no_wide_ord))]
 pub fn kmer_ord_law_u128<S: Src>(s: &mut S) {
     let (a, b) = (s.u128(), s.u128());
     let ka: Kmer<Dna, 40, u128> = Kmer { _p: core::marker::PhantomData, bs: a };
@@ -841,7 +843,9 @@ pub fn dispatch<S: Src>(name: &str, s: &mut S) -> bool {
         "kmer_ord_dna_k5" => kmer_ord_law_usize::<Dna, 5, S>(s),
         "kmer_ord_dna_k32" => kmer_ord_law_usize::<Dna, 32, S>(s),
         "kmer_ord_text_k3" => kmer_ord_law_usize::<text::Dna, 3, S>(s),
+        #[cfg(not(no_wide_ord))]
         "kmer_ord_miupac_k12_u64" => kmer_ord_law_u64::<masked::iupac::Iupac, 12, S>(s),
+        #[cfg(not(no_wide_ord))]
         "kmer_ord_dna_k40_u128" => kmer_ord_law_u128(s),
         _ => return false,
     }
